@@ -175,6 +175,8 @@ pub struct Module {
     pub offset_global: Option<(bool, usize, u32)>,
     /// encode the initialiser of global number .0 as `global.get .1` (binary only)
     pub init_global: Option<(usize, u32)>,
+    /// explicit maximum of the table limits (binary only; tables cannot grow: the size is the minimum)
+    pub table_max: Option<u32>,
     /// custom sections (name bytes, contents) appended at the end (binary only)
     pub customs: Vec<(Vec<u8>, Vec<u8>)>,
 }
@@ -588,8 +590,10 @@ impl Module {
             let mut b = vec![];
             uleb(&mut b, 1);
             fixed(&mut b, 0x70);
-            fixed(&mut b, 0x00);
-            uleb(&mut b, n as u64);
+            match self.table_max {
+                None => { fixed(&mut b, 0x00); uleb(&mut b, n as u64); }
+                Some(mx) => { fixed(&mut b, 0x01); uleb(&mut b, n as u64); uleb(&mut b, mx as u64); }
+            }
             sec_push(out, 4, b);
         }
         if let Some((min, max)) = self.mem {
